@@ -91,7 +91,7 @@ func VP_C06_truthiness() {
 	data := map[string]interface{}{"c": c, "x": px, "y": "right"}
 	r := NewRunner()
 	r.SetThis(data)
-	which := vpChoice("expr", 7)
+	which := vpChoice("expr", 9)
 	vpObserve("case", kind, which, truthy)
 	switch which {
 	case 0: // !!c
@@ -155,6 +155,25 @@ func VP_C06_truthiness() {
 			vpAssert("C06/nested/truthy", vpSame(v, px))
 		} else {
 			vpAssert("C06/nested/falsy", vpSame(v, "right"))
+		}
+	case 7, 8: // nested through the real parser: the conditional associates to the right
+		text := "c ? 'A' : 0 ? 'B' : 'C'"
+		wantT, wantF := "A", "C"
+		if which == 8 {
+			text = "c ? 1 ? 'A' : 'B' : y ? 'C' : 'D'"
+			wantT, wantF = "A", "C"
+		}
+		code, perr := ParseSourceCode([]byte(text))
+		vpAssert("C06/nested-text/parses", perr == nil)
+		if perr != nil {
+			return
+		}
+		v, err := r.resolve(ctx, code.Expression)
+		vpAssert("C06/nested-text/no-error", err == nil)
+		if truthy {
+			vpAssert("C06/nested-text/truthy", vpSame(v, wantT))
+		} else {
+			vpAssert("C06/nested-text/falsy", vpSame(v, wantF))
 		}
 	}
 	vpReach("C06/done")
